@@ -252,9 +252,45 @@ impl DomGen {
     /// Known classes and properties only unless the generator allows unknown ones.
     pub fn scale_tree(&self, r: &mut Rng) -> TreeSpec {
         let mut spec = TreeSpec::new("DataModel");
-        let counts = [63usize, 64, 65, 127, 128, 129, 255, 256, 257, 600];
-        let n = *r.pick(&counts);
-        match r.below(if self.unknown_props { 6 } else { 4 }) {
+        let counts = [63usize, 64, 65, 127, 128, 129, 255, 256, 257, 600, 1024, 1025, 1300, 2049];
+        let mut n = *r.pick(&counts);
+        if r.chance(1, 12) {
+            // past the pre-allocation caps of the readers
+            n = *r.pick(&[16384usize, 16385, 17000]);
+        }
+        match r.below(if self.unknown_props { 8 } else { 6 }) {
+            4 if self.known_props => {
+                // n instances of one known class with an enum / colour column; the LAST one alone carries one more property
+                let p = spec.add(0, "Model", "parts");
+                for i in 0..n {
+                    let id = spec.add(p, "Part", &format!("p{}", i));
+                    spec.nodes[id].props.push(("Material".into(), PV::V(Variant::Enum(rbx_dom_weak::types::Enum::from_u32(256 + (i % 7) as u32 * 16)))));
+                    // distinct ids on every instance (a 16-byte-wide interleaved column)
+                    spec.nodes[id].props.push(("UniqueId".into(), PV::V(Variant::UniqueId(rbx_dom_weak::types::UniqueId::new(i as u32 + 1, 77, 0x1234_5678_9abc + i as i64)))));
+                    if i + 1 == n {
+                        spec.nodes[id].props.push(("Reflectance".into(), PV::V(Variant::Float32(0.5))));
+                    }
+                }
+            }
+            5 if self.known_props => {
+                // byte strings past 64 KiB (and, rarely, a value of several MiB: one chunk past any small buffer)
+                let sizes = [65535usize, 65536, 65537, 70000, 200000];
+                let id = spec.add(0, "BinaryStringValue", "blob");
+                let len = if r.chance(1, 6) { 5 << 20 } else { *r.pick(&sizes) };
+                let bytes: Vec<u8> = (0..len).map(|i| (i * 31 % 251) as u8).collect();
+                spec.nodes[id].props.push(("Value".into(), PV::V(Variant::BinaryString(bytes.into()))));
+                let id2 = spec.add(0, "Folder", "attrs");
+                let mut a = rbx_dom_weak::types::Attributes::new();
+                a.insert("big".into(), Variant::BinaryString(vec![0x5au8; *r.pick(&sizes)].into()));
+                a.insert("small".into(), Variant::Bool(true));
+                spec.nodes[id2].props.push(("Attributes".into(), PV::V(Variant::Attributes(a))));
+            }
+            4 | 5 => {
+                let p = spec.add(0, "Folder", "wide2");
+                for i in 0..n.min(2049) {
+                    spec.add(p, "Folder", &format!("w{}", i));
+                }
+            }
             0 => {
                 // wide: n siblings of one class, each with its own value; plus a few Refs across them
                 let p = spec.add(0, "Folder", "wide");
@@ -290,7 +326,7 @@ impl DomGen {
                 let tags: Vec<String> = (0..n).map(|i| format!("tag{}", i)).collect();
                 spec.nodes[id2].props.push(("Tags".into(), PV::V(Variant::Tags(tags.into()))));
             }
-            4 => {
+            6 => {
                 // n distinct (unknown) classes, two instances each
                 for i in 0..n.min(300) {
                     for k in 0..2 {
